@@ -14,12 +14,12 @@ var c17WebGrans = []string{"", "", "functions", "filefunctions", "files", "lines
 func c17Gen(r *Rng, mode string, n int) c17Case {
 	o := &GenOpts{
 		MaxSampleTypes: 3,
-		MaxFuncs:       1 + r.Intn(6),
+		MaxFuncs:       7,
 		MaxMappings:    2,
-		MaxLocs:        1 + r.Intn(6),
+		MaxLocs:        8,
 		MaxLines:       1 + r.Intn(3),
-		MaxSamples:     1 + r.Intn(10),
-		MaxDepth:       1 + r.Intn(9),
+		MaxSamples:     12,
+		MaxDepth:       10,
 		EmptyStacks:    true,
 		NoLineLocs:     true,
 		SmallValues:    r.Chance(50),
@@ -28,10 +28,14 @@ func c17Gen(r *Rng, mode string, n int) c17Case {
 	if mode == "direct" && r.Chance(20) {
 		o.WeirdStrings = true // "", non-UTF-8, metacharacters: the name=="" branch and byte fidelity
 	}
-	if r.Chance(5) {
-		o.MaxSamples = 0 // no samples at all: the empty arrays must still be non-nil
-	}
+	wantEmpty := r.Chance(4) // no samples at all: the empty arrays must still be non-nil
 	p := GenProfile(r, o)
+	for try := 0; try < 8 && len(p.Sample) == 0 && !wantEmpty; try++ {
+		p = GenProfile(r, o)
+	}
+	if wantEmpty {
+		p.Sample = nil
+	}
 	if mode == "web" {
 		// the driver addresses sample types by name: keep them distinct and non-empty
 		for i, st := range p.SampleType {
